@@ -696,7 +696,7 @@ impl Prop for C03 {
                 v.push(k);
             }
         }
-        for k in ["api.sample_loop", "api.sample_n", "api.sample_matrix", "seeding.seed_clock", "seeding.seed_small", "seeding.seed_set", "config.fault_free", "config.fault_injecting", "config.reached_by_update", "config.off_grid", "fault.rng_zero", "fault.rng_max", "fault.rng_tiny", "fault.rng_half", "fault.rng_tail", "fault.rng_streak", "fault.rng_pair", "fault.rng_zig_edge", "config.default_ctor", "config.preceded_by_other_object", "config.two_live_objects", "config.after_rejected_bulk_request", "config.mvn_preceded_by_sibling", "config.fill_policy_active", "config.mvn_structured", "check.dkw", "check.bulk_advances_stream", "check.mvn_projection", "check.serial_independence", "dpc.Normal.1", "dpc.Normal.2", "dpc.Normal.3+", "dpc.Poisson.4+", "dpc.Binomial.4+", "dpc.Gamma.4+"] {
+        for k in ["api.sample_loop", "api.sample_n", "api.sample_matrix", "seeding.seed_clock", "seeding.seed_small", "seeding.seed_set", "config.fault_free", "config.fault_injecting", "config.reached_by_update", "config.off_grid", "fault.rng_zero", "fault.rng_max", "fault.rng_tiny", "fault.rng_half", "fault.rng_tail", "fault.rng_streak", "fault.rng_pair", "fault.rng_zig_edge", "config.default_ctor", "config.preceded_by_other_object", "config.two_live_objects", "config.after_rejected_bulk_request", "config.mvn_preceded_by_sibling", "config.fill_policy_active", "config.mvn_structured", "check.dkw", "check.tail_points", "check.bulk_advances_stream", "check.mvn_projection", "check.serial_independence", "dpc.Normal.1", "dpc.Normal.2", "dpc.Normal.3+", "dpc.Poisson.4+", "dpc.Binomial.4+", "dpc.Gamma.4+"] {
             v.push(k.to_string());
         }
         v
@@ -900,6 +900,49 @@ fn exec_1d(case: &Case, law: &str, p: &[f64], reg: &str, st: &mut Stats, h: &mut
     let eps = eps_dkw(sorted.len());
     if !(d <= eps) {
         return mk("dkw_band", "dkw_exceeded", format!("{}({:?}), n = {}: sup|F_n - F| >= {:.5} at x = {:e} (band {:.5})", law, p, sorted.len(), d, at, eps));
+    }
+    // the same comparison of F_n with F at fixed far-tail points, where a pointwise (Bernstein) bound is
+    // orders of magnitude tighter than the uniform band: the count of draws <= x is Binomial(n, F(x)).
+    // Points are chosen from the reference CDF alone (levels 1e-6 .. 1 - 1e-6), never from the data;
+    // a returned double stands for the reals within one ulp of it (counts are judged against
+    // F(prev x) .. F(next x)); alpha = 1e-12 shared by all points of the visit.
+    if !point {
+        st.inc("check.tail_points");
+        // order-preserving map double <-> integer (i128 so that differences never overflow)
+        let ord = |x: f64| -> i128 { let b = x.to_bits(); if b >> 63 == 1 { -((b & 0x7FFF_FFFF_FFFF_FFFF) as i128) } else { b as i128 } };
+        let unord = |k: i128| -> f64 { if k < 0 { f64::from_bits(((-k) as u64) | (1u64 << 63)) } else { f64::from_bits(k as u64) } };
+        let nn = sorted.len() as f64;
+        let l = (2.0f64 * 32.0 / 1e-12).ln();
+        let bern = |pp: f64| (2.0 * nn * pp * (1.0 - pp) * l).sqrt() + l / 1.5 + 1.0;
+        for q in [1e-6, 1e-5, 1e-4, 1e-3, 1e-2, 0.99, 0.999, 0.9999, 0.99999, 0.999999] {
+            // smallest double x with F(x) >= q, by bisection over the ordered bit patterns
+            let (mut lo, mut hi) = (ord(-1e300), ord(1e300));
+            if !(cdf(unord(lo)) < q && cdf(unord(hi)) >= q) {
+                continue;
+            }
+            while hi - lo > 1 {
+                let mid = lo + (hi - lo) / 2;
+                if cdf(unord(mid)) >= q { hi = mid } else { lo = mid }
+            }
+            let x = unord(hi);
+            let x = if discrete { x.ceil() } else { x };
+            let (p_lo, p_hi) = if discrete { (cdf(x), cdf(x)) } else { (cdf(unord(ord(x) - 2)), cdf(unord(ord(x) + 2))) };
+            if !(p_lo.is_finite() && p_hi.is_finite()) || p_hi < p_lo {
+                continue;
+            }
+            let k = sorted.partition_point(|v| *v <= x) as f64;
+            // lower levels: judge the count below x; upper levels: the count above x (same event, smaller p)
+            let (obs, e_lo, e_hi, b_lo, b_hi) = if q < 0.5 {
+                (k, nn * p_lo, nn * p_hi, bern(p_lo), bern(p_hi))
+            } else {
+                (nn - k, nn * (1.0 - p_hi), nn * (1.0 - p_lo), bern(1.0 - p_hi), bern(1.0 - p_lo))
+            };
+            if obs < e_lo - b_lo || obs > e_hi + b_hi {
+                return mk("dkw_band", "tail_mass_off", format!(
+                    "{}({:?}), n = {}: {} draws {} x = {:e} (level {}), the law puts {:.3} .. {:.3} there (pointwise bound +- {:.1} at alpha 1e-12)",
+                    law, p, sorted.len(), obs, if q < 0.5 { "<=" } else { ">" }, x, q, e_lo, e_hi, b_hi.max(b_lo)));
+            }
+        }
     }
     // serial independence of the n draws: for disjoint pairs at lag 1, 2 and n/2 the events
     // "below the median" must be independent (each pair: probability 1/4; Hoeffding, alpha 1e-12 / 3)
